@@ -29,8 +29,63 @@ def run(ctx):
                     continue
                 rid = R.add(variants.rename(base, m))
                 R.rel("eq", ["C15"], a=bid, b=rid)
+    # COFF: only symbol-name fields and the string table may change
+    import coffraw, coffcheck, hashlib, json, os
+    from vlib import Machinery
+    coffplan = []
+    gl = ["g%d" % i for i in range(6)]
+    for pi in range(6 if quick else 40):
+        k = rng.choice([3, 4, 6])
+        names = gl[:k]
+        decl = list(names)
+        rng.shuffle(decl)
+        body = []
+        for n in names:
+            body += [{"k": "label", "nm": n}, {"k": "ins", "mn": "MOV", "ops": [{"t": "r", "w": 32, "n": rng.randrange(8)}, {"t": "r", "w": 32, "n": rng.randrange(8)}]}]
+            if rng.random() < 0.7:
+                body.append({"k": "ins", "mn": "RET", "ops": []})
+        und = ["gu"] if rng.random() < 0.5 else []
+        base = [{"k": "cfg", "mn": "FORMAT", "s": "WCOFF"}, {"k": "bits", "v": 32}, {"k": "cfg", "mn": "FILE", "s": "r.nas"},
+                {"k": "global", "names": decl + und}, {"k": "cfg", "mn": "SECTION", "s": ".text"}] + body
+        bid = R.add(base, maxout=1)
+        pick = cells if not quick else rng.sample(cells, 16)
+        for cell in pick:
+            m = variants.renaming_map(base, cell)
+            if m is None:
+                continue
+            rid = R.add(variants.rename(base, m), maxout=1)
+            R.rel("eq", ["C15"], a=bid, b=bid)        # (keeps the pair in one trace group; the object relation is judged by Trace_Coff)
+            coffplan.append((bid, rid, m, decl + und))
     R.run()
+    events = []
+    for bid, rid, m, decl in coffplan:
+        ea, eb = R.end(bid), R.end(rid)
+        if ea.get("status") != "ok" or eb.get("status") != "ok":
+            continue
+        oa = coffraw.read(bytes.fromhex(ea.get("hex", "")))
+        ob = coffraw.read(bytes.fromhex(eb.get("hex", "")))
+        events.append({"e": "coffpair", "id": rid, "a": oa, "b": ob, "map": [[list(k.encode()), list(v.encode())] for k, v in m.items()]})
+        for (cid, end, dl) in ((rid, eb, [m.get(n, n) for n in decl]),):
+            pe = end.get("pe", {"err": "no pe summary"})
+            events.append({"e": "coff", "id": cid, "obj": ob,
+                           "run": {"decl": [list(n.encode()) for n in dl], "flatsha": ob["textsha"], "file": list(b"r.nas"), "ext": [],
+                                   "symp": [[list(n.encode()), v] for n, v in sorted(end.get("sym", {}).items())]},
+                           "pe": {"err": pe.get("err", ""), "nsyms": len(pe.get("syms", [])) if not pe.get("err") else 0}})
+    p = os.path.join(ctx.scratch, "coffpairs.ndjson")
+    with open(p, "w") as f:
+        for e in events:
+            f.write(json.dumps(e, separators=(",", ":")) + "\n")
+    extra_rej = []
+    if events:
+        outp, st = ctx.tlc("Trace_Coff", env={"TRACE": p}, workers=1, name="trace:Trace_Coff")
+        if "TRACE-CONSUMED" not in outp:
+            raise Machinery("Trace_Coff did not consume its trace\n" + "\n".join(outp.splitlines()[-20:]))
+        extra_rej = ctx.printed(outp, "REJ")
+        for r in extra_rej:
+            if "C15" not in r["tags"]:
+                r["tags"] = list(r["tags"]) + ["C15"]
+    ctx.extra_rej = extra_rej
     return relcheck.finish(ctx, "C15", R, None,
                            "seeded random programs (Gen_Prog.tla; labels, EQU names, references before/after definition; both modes) x injective renamings enumerated by TLC (Gen_Variants.tla 'rename': "
                            "8 adversarial families - prefixes/suffixes of one another, case variants, 40-character names sharing a 39-character prefix, template keywords, lower-case mnemonic/register look-alikes - x 10 rotations); relation: identical flat image",
-                           ASSUME, extra={"base_programs": nb})
+                           ASSUME, extra={"base_programs": nb, "coff_object_pairs": len(coffplan)})
